@@ -32,7 +32,9 @@ def parts(tier):
          corpus.cluster_desc(('GLU', 'GLU', 'GLU'), 'line', 3.0, 'mid'), corpus.cluster_desc(('ASP', 'ASP', 'GLU'), 'line', 3.0, 'deep'),
          corpus.cluster_desc(('GLU', 'GLU', 'PYR'), 'line', 3.0, 'mid'),
          # incomplete residues: groups whose interaction atoms are missing must not fall back on absolute positions
-         corpus.window_desc('1HPX', 'A', 20, 15, strip='tips')]
+         corpus.window_desc('1HPX', 'A', 20, 15, strip='tips'),
+         # a chain followed (after its TER) by its own hetero groups, as deposited files are laid out
+         corpus.pair_desc('GLU', 'CA', 2.6, 'exposed'), corpus.pair_desc('HIS', 'ACT', 2.8, 'exposed')]
     if tier == 'thorough':
         p += [corpus.chain_desc('3SGB', 'I'), corpus.pair_desc('PYR', 'GLU', 2.8, 'deep'), corpus.pair_desc('MGU', 'ASP', 2.8, 'mid'),
               corpus.pair_desc('ZN', 'HIS', 2.2, 'mid'), corpus.pair_desc('MPO', 'ARG', 3.0, 'exposed'),
@@ -53,6 +55,12 @@ def plan(tier, seed):
     for i in range(len(ps)):
         for j in range(len(ps)):
             shards.append([dict(a=i, b=j, sep=s, axis=ax, order=o) for s in seps for ax in axes for o in (0, 1)])
+    # plain concatenation of two files (no TER between them)
+    hetero_last = [i for i, p_ in enumerate(ps) if p_['t'] == 'pair' and p_.get('level') == 'exposed' and (p_['b'] in gen.IONS or p_['b'] in gen.TEMPLATES)]
+    prot = [i for i, p_ in enumerate(ps) if p_['t'] in ('window', 'chain')]
+    # (only with the hetero-terminated part first: after 'chain, TER, hetero groups' the chain-start marker is still pending, whereas
+    # two protein parts without TER or OXT between them are one chain by definition)
+    shards += [[dict(a=i, b=j, sep=s_, axis='x', order=0, join='none') for s_ in (26.0, 1001.0)] for i in hetero_last for j in prot + hetero_last]
     # the copy keeps the chain ids of the original (only the residue numbers differ): ligand copies in one chain etc.
     same = [i for i, p_ in enumerate(ps) if p_['t'] in ('pair', 'cluster')]
     shards += [[dict(a=i, b=i, sep=s_, axis='x', order=o, same=True) for s_ in (26.0, 1500.0) for o in (0, 1)] for i in same]
@@ -70,7 +78,7 @@ def plan(tier, seed):
     shards += [[dict(a=i, b=j, sep=100.0, axis='x', order=o, lib='big')] for i, j in bigpairs for o in ((0,) if tier == 'quick' else (0, 1))]
     return dict(shards=shards, exhaustive=True,
                 rule=('parts: %d library entries; unions of every ordered pair (A=B included) at nearest-atom separations %s A along '
-                      'axes %s, B first or second in the file; whole reference files next to 2-3 copies of another one (100 A). non-trivial = distinct unions in which both parts carry at least one '
+                      'axes %s, B first or second in the file, joined with TER and (exposed pairs, windows) by plain concatenation; whole reference files next to 2-3 copies of another one (100 A). non-trivial = distinct unions in which both parts carry at least one '
                       'group with a determinant or a non-zero desolvation term') % (len(ps), list(seps), list(axes)),
                 bounds=dict(parts=len(ps), separations=list(seps), axes=list(axes)),
                 samples=[dict(a=ps[0], b=ps[2], sep=1001.0, axis='x', order=0)])
@@ -197,7 +205,10 @@ def run_case(case, ctx, acc):
     rb, qb, fb = alone(('B', case['b'], case['sep'], case['axis'], case['a']) + tag, sb, opts)
     first, second = (sa, sb) if case['order'] == 0 else (sb, sa)
     items = list(first.items)
-    if not (items and isinstance(items[-1], str) and items[-1].startswith('TER')):
+    if case.get('join') == 'none':      # plain concatenation: no TER between the last record of one part and the first of the other
+        while items and isinstance(items[-1], str):
+            items.pop()
+    elif not (items and isinstance(items[-1], str) and items[-1].startswith('TER')):
         items.append('TER\n')
     items += second.items
     text = gen.to_text(items)
